@@ -332,6 +332,12 @@ def alter_sig(sig, how, rnd):
             return sig + b'\0'
         inner = rest[4:]
         return S(name) + S(inner + b'\0')
+    if how == 'reenc':
+        generic = [b for n, b in reencodings('', sig)
+                   if n in ('inner+leading-zero', 'inner+trailing-zero',
+                            'inner-first-byte', 'trailing-empty-string',
+                            'signature-string-twice', 'leading-zero-stripped')]
+        return rnd.choice(generic)
     raise ValueError(how)
 
 
@@ -776,6 +782,24 @@ class IdentWorld:
                     return r is True, None
                 except Exception as exc:    # pylint: disable=broad-except
                     return False, exc
+        if row['entry'] in ('sshsig_key', 'sshsig_caline'):
+            # `list' is the principals pattern list of the line
+            ca = row['entry'] == 'sshsig_caline'
+            ck = ('line', ca)
+            if ck not in self.sigs:
+                kp = (self.k, self.cert('user', [], 0, 5)) if ca else self.k
+                self.sigs[ck] = asyncssh.create_sshsig(kp, MSG, namespace=NS,
+                                                       raw=True)
+            key = self.ca if ca else self.k
+            text = ','.join(names) + (' cert-authority ' if ca else ' ') + \
+                key.export_public_key('openssh').decode('ascii')
+            with Clock(now):
+                try:
+                    r = asyncssh.validate_sshsig(MSG, self.sigs[ck], wanted,
+                                                 text.encode())
+                    return r is True, None
+                except Exception as exc:    # pylint: disable=broad-except
+                    return False, exc
         raise ValueError(row['entry'])
 
 
@@ -860,3 +884,183 @@ def live_identity_rows(rows, kalg='ssh-ed25519', sig_alg=b'ssh-ed25519'):
     finally:
         close_loop(loop)
     return out
+
+
+# --------------------------------------------------------------------------
+# length-changing re-encodings of a signature blob
+# --------------------------------------------------------------------------
+
+def _inner(sig):
+    """SSH signature blob -> (algorithm name, inner signature bytes, rest)"""
+    name, rest = split_sig(sig)
+    n = struct.unpack('>I', rest[:4])[0]
+    return name, rest[4:4 + n], rest[4 + n:]
+
+
+def leads_with_zero(sig):
+    return _inner(sig)[1][:1] == b'\0'
+
+
+def _mpints(inner):
+    """ECDSA inner signature -> [r bytes, s bytes] (mpint contents)"""
+    out = []
+    off = 0
+    while off < len(inner):
+        n = struct.unpack('>I', inner[off:off + 4])[0]
+        out.append(inner[off + 4:off + 4 + n])
+        off += 4 + n
+    return out
+
+
+def reencodings(kalg, sig):
+    """Byte strings that are NOT the canonical blob sign() produced but encode
+    (or pretend to encode) the same signature value: every one must be
+    refused.  -> list of (name, blob)"""
+    name, inner, rest = _inner(sig)
+    out = [('inner+leading-zero', S(name) + S(b'\0' + inner)),
+           ('inner+trailing-zero', S(name) + S(inner + b'\0')),
+           ('inner-last-byte', S(name) + S(inner[:-1])),
+           ('inner-first-byte', S(name) + S(inner[1:])),
+           ('trailing-bytes-after-signature', sig + b'\0\0\0\0'),
+           ('trailing-empty-string', sig + S(b'')),
+           ('signature-string-twice', S(name) + S(inner) + S(inner)),
+           ('empty-signature', S(name) + S(b'')),
+           ('no-signature-string', S(name))]
+    if inner[:1] == b'\0':
+        out.append(('leading-zero-stripped', S(name) + S(inner[1:])))
+        stripped = inner.lstrip(b'\0')
+        out.append(('all-leading-zeros-stripped', S(name) + S(stripped)))
+    if kalg.startswith('ecdsa-'):
+        ints = _mpints(inner)
+        if len(ints) == 2:
+            r, s = ints
+            out += [('r-extra-leading-zero', S(name) + S(S(b'\0' + r) + S(s))),
+                    ('s-extra-leading-zero', S(name) + S(S(r) + S(b'\0' + s))),
+                    ('r,s-extra-leading-zeros',
+                     S(name) + S(S(b'\0\0' + r) + S(b'\0\0' + s))),
+                    ('r-s-swapped', S(name) + S(S(s) + S(r))),
+                    ('third-mpint', S(name) + S(S(r) + S(s) + S(b''))),
+                    ('only-r', S(name) + S(S(r)))]
+            if r[:1] == b'\0':
+                out.append(('r-mandatory-zero-removed',
+                            S(name) + S(S(r[1:]) + S(s))))
+            if s[:1] == b'\0':
+                out.append(('s-mandatory-zero-removed',
+                            S(name) + S(S(r) + S(s[1:]))))
+    return [(n, b) for n, b in out if b != sig]
+
+
+def find_signature(sign, want, tries=4000):
+    """sign(i) -> signature blob; first i whose signature satisfies want."""
+    for i in range(tries):
+        sig = sign(i)
+        if want(sig):
+            return i, sig
+    return None, None
+
+
+def ecdsa_has_pad(sig):
+    ints = _mpints(_inner(sig)[1])
+    return len(ints) == 2 and ints[0][:1] == b'\0' and ints[1][:1] == b'\0'
+
+
+def reenc_verify_cases(kalg, sig_alg):
+    """Yields (variant name, accepted, exception) for key.verify()."""
+    p = pool()[kalg]
+    pub = p['k'].convert_to_public()
+    base = b'reenc ' + sig_alg + b' '
+    want = ecdsa_has_pad if kalg.startswith('ecdsa-') else leads_with_zero
+    datas = [base + b'0']
+    i, sig = find_signature(lambda i: p['k'].sign(base + b'%d' % i, sig_alg),
+                            want)
+    if i is not None:
+        datas.append(base + b'%d' % i)
+    else:
+        yield 'search-failed', False, None
+    for data in datas:
+        sig = p['k'].sign(data, sig_alg)
+        if not pub.verify(data, sig):
+            yield 'canonical-refused', False, None
+            continue
+        yield 'canonical', False, None
+        for name, blob in reencodings(kalg, sig):
+            try:
+                yield name, bool(pub.verify(data, blob)), None
+            except Exception as exc:    # pylint: disable=broad-except
+                yield name, False, exc
+
+
+def reenc_cert_cases(kalg, sig_alg, rnd):
+    """Same for the CA signature of a certificate (import_certificate)."""
+    p = pool()[kalg]
+    want = ecdsa_has_pad if kalg.startswith('ecdsa-') else leads_with_zero
+
+    def mk(i):
+        return cert_fields(p['ca'], sig_alg, p['k'], 1, ['p'], A, B, b'',
+                           S('permit-pty') + S(b''),
+                           nonce=(b'%032d' % i))
+
+    def sig_of(fields):
+        return fields[-1][1][4:]
+
+    cands = [mk(0)]
+    i, _ = find_signature(lambda i: sig_of(mk(i + 1)), want)
+    if i is not None:
+        cands.append(mk(i + 1))
+    else:
+        yield 'search-failed', False, None
+    alg = cert_alg(p['k'])
+    for fields in cands:
+        body = b''.join(f for _, f in fields[:-1])
+        sig = sig_of(fields)
+        cert, exc = import_cert_blob(body + S(sig), alg)
+        if cert is None:
+            yield 'canonical-refused', False, exc
+            continue
+        yield 'canonical', False, None
+        for name, blob in reencodings(kalg, sig):
+            cert, exc = import_cert_blob(body + S(blob), alg)
+            yield name, cert is not None, exc
+
+
+def reenc_sshsig_cases(kalg):
+    """Same for the signature inside an SSHSIG blob (validate_sshsig)."""
+    p = pool()[kalg]
+    want = ecdsa_has_pad if kalg.startswith('ecdsa-') else leads_with_zero
+    text = ('* ' + p['k'].export_public_key('openssh').decode()).encode()
+
+    def mk(i):
+        return asyncssh.create_sshsig(p['k'], MSG + b'%d' % i, namespace=NS,
+                                      raw=True)
+
+    def sig_of(raw):
+        # MAGIC(6) version(4) pubkey namespace reserved hash signature
+        off = 10
+        for _ in range(4):
+            n = struct.unpack('>I', raw[off:off + 4])[0]
+            off += 4 + n
+        n = struct.unpack('>I', raw[off:off + 4])[0]
+        return off, raw[off + 4:off + 4 + n]
+
+    cands = [0]
+    i, _ = find_signature(lambda i: sig_of(mk(i + 1))[1], want, tries=1500)
+    if i is not None:
+        cands.append(i + 1)
+    else:
+        yield 'search-failed', False, None
+    for i in cands:
+        raw = mk(i)
+        msg = MSG + b'%d' % i
+        off, sig = sig_of(raw)
+        with Clock(A):
+            if asyncssh.validate_sshsig(msg, raw, PRINCIPAL, text) is not True:
+                yield 'canonical-refused', False, None
+                continue
+            yield 'canonical', False, None
+            for name, blob in reencodings(kalg, sig):
+                try:
+                    r = asyncssh.validate_sshsig(msg, raw[:off] + S(blob),
+                                                 PRINCIPAL, text)
+                    yield name, r is True, None
+                except Exception as exc:    # pylint: disable=broad-except
+                    yield name, False, exc
